@@ -404,7 +404,9 @@ def classify(rec):
     if spec != "any" and mview != spec:
         return "machinery"
     if iraw != mraw:
-        return "drift"
+        # outside the property's stated domain (`S any`) the property says nothing, and harmless refactorings routinely
+        # change what happens there (overflow behaviour, panic texts): counted in the evidence, not a broken correspondence
+        return "drift" if spec != "any" else "ood-drift"
     return "ok"
 
 
